@@ -5,6 +5,7 @@ import Flowjaxv.Proofs.AdPlanar
 import Flowjaxv.Proofs.AdMix
 import Flowjaxv.Proofs.AdNet
 import Flowjaxv.Proofs.AdSpline
+import Flowjaxv.Proofs.AdMvn
 /-!
 # C18 — finite log-probabilities have finite gradients; log_prob is never NaN
 
@@ -425,6 +426,25 @@ theorem coupling_spline_instance :
   · intro r hr
     obtain ⟨i, _, rfl⟩ := List.mem_map.mp hr
     exact ⟨fun e he => by simp only [List.mem_singleton] at he; subst he; exact vsafe_param _ _ _, vsafe_param _ _ _⟩
+
+/-- **MultivariateNormal** (`Transformed(StandardNormal((n,)), TriangularAffine(loc, cholesky))`), private `_log_prob`, and the two
+directions of its `TriangularAffine` (lower = True).  For EVERY dimension `n` and EVERY real content of the four vector parameters
+`vs = [x, loc, raw diagonal, arr]` (no length or sign hypothesis at all: the diagonal is `softplus(raw) > 0`, the strictly lower
+entries are read from `arr`, everything else is the constant 0): the log-density, every element of `inverse_and_log_det` /
+`transform_and_log_det` and their log-dets `∓Σ log|diag|` have finite values and finite adjoints w.r.t. the point, `loc`, every raw
+diagonal leaf and every entry of `arr`.  `solve_triangular` is forward substitution (divisions by the positive diagonal only). -/
+theorem mvn_grad_finite (n : Nat) (vs : List (List ℝ)) :
+    GradFinite (envVecs vs) (AdMvn.logProb n) ∧
+    (∀ e ∈ (AdMvn.ild n).1, GradFinite (envVecs vs) e) ∧ GradFinite (envVecs vs) (AdMvn.ild n).2 ∧
+    (∀ e ∈ (AdMvn.tld n).1, GradFinite (envVecs vs) e) ∧ GradFinite (envVecs vs) (AdMvn.tld n).2 :=
+  ⟨gradFin_of_safe (AdMvnT.logProb_safe vs n),
+   fun e he => gradFin_of_safe ((AdMvnT.ild_vsafe vs n).1 e he).safe, gradFin_of_safe (AdMvnT.ild_vsafe vs n).2.safe,
+   fun e he => gradFin_of_safe ((AdMvnT.tld_vsafe vs n).1 e he).safe, gradFin_of_safe (AdMvnT.tld_vsafe vs n).2.safe⟩
+
+/-- non-vacuity: dimension 3, a point equal to `loc`, a very negative raw diagonal leaf (tiny positive diagonal entry) -/
+theorem mvn_instance :
+    GradFinite (envVecs [[1, -2, 0.5], [1, -2, 0.5], [-20, 0, 3], [0, 9, 9, 2, 0, 9, -1.5, 1000, 0]]) (AdMvn.logProb 3) :=
+  (mvn_grad_finite 3 _).1
 
 end C18Ext
 
